@@ -998,7 +998,9 @@ def judge_penalised(ctx, dn, projected, vp, tag, witness):
         evT = np.linalg.eigvalsh(dn.hp_matrix(2))
         # (up to the state's own penalty under that reading: with c = 1e-3 it is too weak to move a converged run at all)
         own_T = sum(float(np.real(pz)) * t2 * abs(np.vdot(v, vp)) ** 2 for pz, v, f2, t2 in dn.pen if t2 < 1.0)
-        if abs(dn.pen_energy(vp, 2) - float(evT[0])) <= 1e-7 * max(dn.scale, abs(float(evT[0]))) + own_T:
+        # or the run simply stays on a listed state whose penalty that reading scales down (c^2 = 1e-6): a stationary point
+        weak = any(t2 < 0.5 and abs(np.vdot(v, vp)) > 1e-5 for pz, v, f2, t2 in dn.pen)
+        if weak or abs(dn.pen_energy(vp, 2) - float(evT[0])) <= 1e-7 * max(dn.scale, abs(float(evT[0]))) + own_T:
             ctx.margin("project-next-level (violating cases)", abs(Ef - target), tol)
             ctx.violation("project:listed-state-norm-enters-via-site-tensors",
                           f"{tag} converged at <H> = {dn.energy(vp)!r}: the lowest level of H + sum_i penalty_i ||phi_i||^2 |phi_i^><phi_i^| "
